@@ -111,6 +111,24 @@ pub fn case(seed: u64, st: &mut Stats) {
             overrides = Some((x, y));
         }
     }
+    // a (multiple) group: present exactly through explicitly supplied members, with the strongest
+    // source among them; an argument outside may conflict with the group as a whole
+    let mut group: Option<Vec<usize>> = None;
+    let mut group_conflict: Option<usize> = None;
+    if rng.chance(1, 2) {
+        let mut members: Vec<usize> = (0..n).filter(|_| rng.coin()).collect();
+        if members.is_empty() {
+            members.push(rng.below(n));
+        }
+        let outside: Vec<usize> = (0..n).filter(|i| !members.contains(i)).collect();
+        if conflict.is_none() && requires.is_none() && overrides.is_none() && !outside.is_empty() && rng.coin() {
+            let x = *rng.pick(&outside);
+            c.args[x].conflicts.push("g0".into());
+            group_conflict = Some(x);
+        }
+        c.groups.push(GroupSpec { id: "g0".into(), members: members.iter().map(|i| format!("x{}", i)).collect(), multiple: true, ..Default::default() });
+        group = Some(members);
+    }
     let help_else = rng.chance(1, 5);
     if help_else {
         c.set(Setting::ArgRequiredElseHelp);
@@ -258,6 +276,12 @@ pub fn case(seed: u64, st: &mut Stats) {
                 exp_err = Some(ErrorKind::ArgumentConflict);
             }
         }
+        if let (Some(x), Some(members)) = (group_conflict, &group) {
+            if explicit(x) && members.iter().any(|i| explicit(*i)) {
+                exp_err = Some(ErrorKind::ArgumentConflict);
+                st.count("lattice.group-conflict");
+            }
+        }
         if exp_err.is_none() {
             if let Some((x, y)) = overrides {
                 if explicit(x) && explicit(y) {
@@ -308,6 +332,30 @@ pub fn case(seed: u64, st: &mut Stats) {
                 st.count("verdict.ok");
                 if m.args_present() != any_explicit && m.args_present() != any_cli {
                     st.violation("c06:args_present", format!("args_present()={} but explicit={} cli={} | {}", m.args_present(), any_explicit, any_cli, ctx()));
+                }
+                if let Some(members) = &group {
+                    let present: Vec<usize> = members.iter().copied().filter(|i| explicit(*i)).collect();
+                    let want_src = if present.iter().any(|i| !matches!(cli[*i], Cli::Absent)) {
+                        Some(Src::Cli)
+                    } else if !present.is_empty() {
+                        Some(Src::Env)
+                    } else {
+                        None
+                    };
+                    st.count(&format!("lattice.group.{:?}", want_src));
+                    let have_src = crate::model::src_of(m.value_source("g0"));
+                    let have_contains = m.try_contains_id("g0").ok();
+                    let mut have_ids: Vec<String> = m.try_get_many::<clap::Id>("g0").ok().flatten().map(|v| v.map(|x| x.as_str().to_string()).collect()).unwrap_or_default();
+                    have_ids.sort();
+                    have_ids.dedup();
+                    let want_ids: Vec<String> = present.iter().map(|i| format!("x{}", i)).collect();
+                    if have_src != want_src || have_contains != Some(want_src.is_some()) || have_ids != want_ids {
+                        st.violation(
+                            "c06:group-presence",
+                            format!("g0: source {:?} contains {:?} members {:?}; expected source {:?} members {:?} | {}", have_src, have_contains, have_ids, want_src, want_ids, ctx()),
+                        );
+                        continue;
+                    }
                 }
                 for i in 0..n {
                     let a = &c.args[i];
